@@ -23,6 +23,10 @@ Data == << Series(<< <<"__name__","m">>, <<"a","x">>, <<"b","1">> >>, [i \in 1..
            Series(<< <<"__name__","n">>, <<"a","x">> >>, [i \in 1..40 |-> Smp(i - 1, "f", 2)]),
            Series(<< <<"__name__","n">>, <<"a","y">> >>, [i \in 1..6 |-> Smp(i - 1, "f", 4)]),
            Series(<< <<"__name__","p">> >>, [i \in 1..40 |-> Smp(i - 1, "f", (i % 2) + 1)]) >>
+\* wide: 130 more series of m - more than 64 per shard with one or two shards (work that is split by series count)
+Digit(k) == <<"0","1","2","3","4","5","6","7","8","9">>[k + 1]
+Name3(k) == Digit(k \div 100) \o Digit((k \div 10) % 10) \o Digit(k % 10)
+WideData == Data \o [k \in 1..130 |-> Series(<< <<"__name__","m">>, <<"a","w">>, <<"b", Name3(k)>> >>, [i \in 1..14 |-> Smp(3 * i - 1, "f", 2000 + 50 * k + i)])]
 M == <<Sel(<<Metric("m")>>)>>
 N2 == <<Sel(<<Metric("n")>>)>>
 PS == <<Sel(<<Metric("p")>>), Fn("scalar", <<1>>)>>
@@ -58,10 +62,11 @@ Plans == <<
   [p |-> Join(LOT, N2, LAMBDA a, b : BinM("+", a, b, FALSE, "N:1", TRUE, <<"a">>, <<>>)), dist |-> FALSE] >>
 
 VARIABLE g
-Init == g \in [p : 1..Len(Plans), win : {"instant", "range", "long"}, procs : IF Q THEN {2, 4} ELSE {2, 4, 8}, dist : {0, 1}]
+Init == g \in [p : 1..Len(Plans), win : {"instant", "range", "long"}, procs : IF Q THEN {2, 4} ELSE {2, 4, 8}, dist : {0, 1}, wide : BOOLEAN]
 Next == UNCHANGED g
-Valid(x) == x.dist = 0 \/ Plans[x.p].dist
-ScnOf(x) == Scn("fault", "C15", TickMs, Data, Plans[x.p].p, 2, IF x.win = "instant" THEN 2 ELSE IF x.win = "range" THEN 13 ELSE 36, IF x.win = "instant" THEN 0 ELSE 1, 2, 0)
+\* the wide data set with the first three plans (selector, range function, aggregation), undistributed, two-batch window
+Valid(x) == (x.dist = 0 \/ Plans[x.p].dist) /\ (x.wide => (x.p <= 3 /\ x.dist = 0 /\ x.win = "range"))
+ScnOf(x) == Scn("fault", "C15", TickMs, IF x.wide THEN WideData ELSE Data, Plans[x.p].p, 2, IF x.win = "instant" THEN 2 ELSE IF x.win = "range" THEN 13 ELSE 36, IF x.win = "instant" THEN 0 ELSE 1, 2, 0)
             @@ [cfg |-> [procs |-> x.procs, dist |-> x.dist]]
 EmitFault == IF Valid(g) /\ (g.p * 5 + g.procs + g.dist * 3 + (IF g.win = "instant" THEN 0 ELSE IF g.win = "range" THEN 1 ELSE 2)) % Mod = Seed % Mod THEN Emit(ScnOf(g)) ELSE TRUE
 =============================================================================
